@@ -335,12 +335,13 @@ pub trait AggValidBasic<T: IsNone>: IntoIterator<Item = T> + Sized {
         m1 /= n_f64; // E(x)
         m2 /= n_f64; // E(x^2)
         m2 -= m1.powi(2); // variance = E(x^2) - (E(x))^2
-        if m2 <= EPS {
+        if n < 2 {
+            // the sample variance needs at least two observations
+            (m1, f64::NAN)
+        } else if m2 <= EPS {
             (m1, 0.)
-        } else if n >= 2 {
-            (m1, m2 * n_f64 / (n - 1).f64())
         } else {
-            (f64::NAN, f64::NAN)
+            (m1, m2 * n_f64 / (n - 1).f64())
         }
     }
 
